@@ -5,7 +5,7 @@ Require Extraction.
 Require Import ExtrOcamlBasic.
 From Coq Require Import ZArith List.
 From Cedar Require Import Base.Int64 Lang.Value Lang.Expr Impl.Authorize Impl.Like Impl.Eval
-  Impl.Decimal Impl.Duration Impl.Datetime Impl.IPAddr Impl.Fold Impl.PolicySet Impl.HashSet Impl.Partial Impl.Batch Impl.Hash Impl.SetTable Generated.Tables Impl.Scanner Impl.Tokenizer Lang.Cursor Impl.Quote Impl.IPPrint Impl.Parser Impl.Printer Base.Json Impl.ValueJson Impl.PolicyJson Impl.SchemaResolve Impl.TypeCheck Impl.SchemaJson Impl.ValidatePolicy Impl.EntityJson Impl.RequestJson Impl.Coerce Impl.Conform Impl.SchemaText.
+  Impl.Decimal Impl.Duration Impl.Datetime Impl.IPAddr Impl.Fold Impl.PolicySet Impl.HashSet Impl.Partial Impl.Batch Impl.Hash Impl.SetTable Generated.Tables Impl.Scanner Impl.Tokenizer Lang.Cursor Impl.Quote Impl.IPPrint Impl.Parser Impl.Printer Base.Json Impl.ValueJson Impl.PolicyJson Impl.SchemaResolve Impl.TypeCheck Impl.SchemaJson Impl.ValidatePolicy Impl.EntityJson Impl.RequestJson Impl.Coerce Impl.Conform Impl.UidText Impl.SchemaText.
 Extraction Language OCaml.
 Extraction "model.ml"
   Authorize.authorize
@@ -29,5 +29,5 @@ Extraction "model.ml"
   TypeCheck.typeof
   SchemaJson.enc_schema SchemaJson.dec_schema SchemaJson.erase
   ValidatePolicy.validate_policy
-  EntityJson.enc_entity_map EntityJson.dec_entity_map RequestJson.enc_request RequestJson.dec_request RequestJson.enc_decision RequestJson.dec_decision RequestJson.enc_diagnostic RequestJson.dec_diagnostic Coerce.coerce Coerce.coerce_tags Coerce.coerce_entity Conform.check_value Conform.check_entity Conform.check_entities Conform.check_request
+  EntityJson.enc_entity_map EntityJson.dec_entity_map RequestJson.enc_request RequestJson.dec_request RequestJson.enc_decision RequestJson.dec_decision RequestJson.enc_diagnostic RequestJson.dec_diagnostic Coerce.coerce Coerce.coerce_tags Coerce.coerce_entity Conform.check_value Conform.check_entity Conform.check_entities Conform.check_request UidText.parse_uid UidText.print_uid
   SchemaText.parse_schema SchemaText.print_schema.
